@@ -161,6 +161,9 @@ package smtp
 //@   ensures @C03 transaction-ends: c.cbData != old(c.cbData) ==> !c.fromReceived && len(c.recipients) == 0 && c.bdatPipe == nil && (c.cbReset == old(c.cbReset) + 1 || c.closed)
 //@   ensures @C02 resync: c.cbData != old(c.cbData) ==> dS(c.text.R.in, old(c.text.R.pos), c.text.R.pos) == 5 || c.text.R.iofail || c.closed
 //@   ensures @C02 stream-only-forward: (c.text.R.pos >= old(c.text.R.pos) || c.closed) && c.text == old(c.text) && c.text.R == old(c.text.R)
+//@   before dataErrorToStatus: @C04 the-verdict-is-the-backends-result-for-this-message: $0 == resultof("Session.Data", 1, 1)
+//@   before (*Conn).writeResponse: @C04 final-reply-positive-exactly-when-the-backend-accepted: called("Session.Data") ==> (c.cbData != old(c.cbData) ==> ($1 == 250 <==> resultof("Session.Data", 1, 1) == nil))
+//@   before (*Conn).writeResponse: @C04 a-backend-smtp-error-keeps-its-code: called("Session.Data") ==> (c.cbData != old(c.cbData) && istype(resultof("Session.Data", 1, 1), "*SMTPError") ==> $1 == asref(resultof("Session.Data", 1, 1), "*SMTPError").Code)
 
 // ---------------------------------------------------------------------------------------
 // Greeting, MAIL, RCPT
@@ -534,7 +537,7 @@ package smtp
 //@   requires c != nil && c.server != nil && c.conn != nil && c.server.ErrorLog != nil && status != nil && done != nil
 //@   requires r != nil && drInv(r) && lmtpSession != nil && sessCur(lmtpSession) && lmtpSession.conn == c && c.fromReceived && len(c.recipients) >= 1
 //@   modifies r.state, r.n, r.delivered, r.limited, r.r.pos, r.r.iofail, r.r.unreadable, c.cbData, *chan
-//@   ensures @C02 drained: r.state == 5 || r.r.iofail
+//@   ensures @C02,C01 drained: r.state == 5 || r.r.iofail
 //@   ensures reader-consistent: drInv(r) && r.r.pos >= old(r.r.pos)
 //@   ensures @C03 one-data-callback: c.cbData == old(c.cbData) + 1
 
@@ -757,6 +760,7 @@ package smtp
 //@   requires clientWF(c) && !istype(r, "*dataReader") && !istype(r, "*io.LimitedReader")
 //@   before (*Client).Rcpt: @C16 recipients-in-the-order-given: $1 == to[rangeindex + 1]
 //@   before (*Client).Mail: @C16 sender-as-given: $1 == from
+//@   before (*Client).Data: @C16 every-recipient-given-was-sent-and-accepted-first: rangeindex + 1 >= len(to) && resultof("(*Client).Mail", 1, 1) == nil
 //@   modifies c.didGreet, c.greetError, c.didHello, c.helloError, c.ext, c.rcpts, c.rcpts[**], c.text.cmds, c.text.Reader.resps, *.dataCloser.closed, *.io.WriteCloser.closes, *elems string
 //@   loop 1:
 //@     invariant clientWF(c) && rangeindex < len(to)
